@@ -345,8 +345,29 @@ fn c18_conc(case: &Case) {
             return;
         }
     }
-    let nthreads = range(2, 4) as usize;
+    let mut nthreads = range(2, 4) as usize;
     let mut plans: Vec<Vec<Op>> = Vec::new();
+    // a quarter of the runs: a key is handed over from a peer that then leaves, while others
+    // look the key up - it addresses a present peer at every instant
+    if simkernel::choose(4) == 0 {
+        let (a, b) = (next_id, next_id + 1);
+        next_id += 2;
+        let k = KEYS[simkernel::choose(3) as usize].to_string();
+        for op in [Op::Insert(a), Op::Insert(b), Op::Alias(a, k.clone())] {
+            let got = exec(&reg, &log, &op);
+            let want = model.apply(&op);
+            if !case.check(got == want, "model-mismatch", || format!("prefix {op:?}: {got:?} vs {want:?}")) {
+                return;
+            }
+        }
+        in_play.extend([a, b]);
+        plans.push(vec![Op::Alias(b, k.clone()), Op::Remove(a)]);
+        for _ in 0..range(1, 2) {
+            plans.push((0..range(1, 3)).map(|_| if coin() { Op::GetBy(k.clone()) } else { Op::KeyFor(b) }).collect());
+        }
+        nthreads = nthreads.saturating_sub(plans.len()).max(0);
+        case.probe("key_handed_over_while_looked_up");
+    }
     for t in 0..nthreads {
         let mut plan = Vec::new();
         // each thread inserts from its own id range (ids stay unique, the documented contract)
